@@ -719,6 +719,125 @@ Proof.
   intros H1 H2 H3 H4 H5. unfold api_decompose, dq_final, dq_run, dq_stage3.
   rewrite H1, H2, H3, Nat.eqb_refl, H4, H5. auto.
 Qed.
+(* ----- coverage: when every QPD gate occurs in instruction_ids and the pre-check passed, the assignment loop
+   leaves no gate unset, so the unset-basis_id check cannot fire after the argument was modified ----- *)
+Definition dq_shape (x : dq_inst) : option (nat * nat) := match x with DQ b n _ => Some (b, n) | DOther => None end.
+Lemma nth_DQ_nth_error c j b n bid : nth j c DOther = DQ b n bid -> nth_error c j = Some (DQ b n bid).
+Proof.
+  intro H. destruct (Nat.lt_ge_cases j (length c)) as [L | L].
+  - rewrite (nth_error_nth' c DOther L). now rewrite H.
+  - rewrite (nth_overflow c DOther L) in H. discriminate.
+Qed.
+Lemma dq_set_other c k m j : j <> k -> nth j (dq_set c k m) DOther = nth j c DOther.
+Proof.
+  intro H. unfold dq_set. destruct (nth_error c k) as [[b n bid|]|]; try reflexivity.
+  apply nth_upd_other. congruence.
+Qed.
+Lemma dq_set_same c k m b n bid :
+  nth k c DOther = DQ b n bid -> nth k (dq_set c k m) DOther = DQ b n (bid_of_map m).
+Proof.
+  intro H. pose proof (nth_DQ_nth_error _ _ _ _ _ H) as E. unfold dq_set. rewrite E.
+  apply nth_upd_same. apply nth_error_Some. congruence.
+Qed.
+Lemma dq_set_shape c k m j : dq_shape (nth j (dq_set c k m) DOther) = dq_shape (nth j c DOther).
+Proof.
+  destruct (Nat.eq_dec j k) as [-> | N]; [|now rewrite dq_set_other].
+  destruct (nth k c DOther) as [b n bid|] eqn:E.
+  - now rewrite (dq_set_same _ _ m _ _ _ E).
+  - unfold dq_set. destruct (nth_error c k) as [[b n bid|]|] eqn:E2; try now rewrite E.
+    apply nth_error_nth with (d := DOther) in E2. congruence.
+Qed.
+Lemma assign_group_shape g : forall c m j,
+  dq_shape (nth j (dq_assign_group c g m) DOther) = dq_shape (nth j c DOther).
+Proof.
+  induction g as [|k r IH]; intros c m j; [reflexivity|].
+  unfold dq_assign_group in *. simpl. rewrite IH. apply dq_set_shape.
+Qed.
+Lemma assign_group_notin g : forall c m j, ~ In j g -> nth j (dq_assign_group c g m) DOther = nth j c DOther.
+Proof.
+  induction g as [|k r IH]; intros c m j H; [reflexivity|].
+  unfold dq_assign_group in *. simpl. rewrite IH; [|intro; apply H; now right].
+  apply dq_set_other. intro; subst; apply H; now left.
+Qed.
+Lemma assign_group_in g : forall c m j b n bid,
+  nth j c DOther = DQ b n bid -> In j g -> nth j (dq_assign_group c g m) DOther = DQ b n (bid_of_map m).
+Proof.
+  induction g as [|k r IH]; intros c m j b n bid E Hin; [destruct Hin|].
+  change (dq_assign_group c (k :: r) m) with (dq_assign_group (dq_set c k m) r m).
+  destruct (Nat.eq_dec j k) as [-> | N].
+  - pose proof (dq_set_same c k m b n bid E) as E1.
+    destruct (in_dec Nat.eq_dec k r) as [I | I]; [exact (IH _ m k b n _ E1 I)|].
+    rewrite (assign_group_notin r _ m k I). exact E1.
+  - destruct Hin as [-> | Hin]; [congruence|].
+    apply (IH _ m j b n bid); [rewrite (dq_set_other c k m j N); exact E | exact Hin].
+Qed.
+Lemma assign_shape gm : forall c j, dq_shape (nth j (dq_assign c gm) DOther) = dq_shape (nth j c DOther).
+Proof.
+  induction gm as [|p r IH]; intros c j; [reflexivity|]. simpl. rewrite IH. apply assign_group_shape.
+Qed.
+Lemma assign_notin gm : forall c j, (forall p, In p gm -> ~ In j (fst p)) -> nth j (dq_assign c gm) DOther = nth j c DOther.
+Proof.
+  induction gm as [|p r IH]; intros c j H; [reflexivity|]. simpl.
+  rewrite IH; [|intros; apply H; now right]. apply assign_group_notin. apply H. now left.
+Qed.
+Lemma assign_in gm : forall c j b n bid,
+  nth j c DOther = DQ b n bid -> (exists p, In p gm /\ In j (fst p)) ->
+  exists p, In p gm /\ In j (fst p) /\ nth j (dq_assign c gm) DOther = DQ b n (bid_of_map (snd p)).
+Proof.
+  induction gm as [|p0 r IH]; intros c j b n bid E [p [Hp Hj]]; [destruct Hp|]. simpl.
+  destruct (existsb (fun q => existsb (Nat.eqb j) (fst q)) r) eqn:X.
+  - apply existsb_exists in X as [q [Hq Hq2]]. apply existsb_exists in Hq2 as [j' [Hj' Ej]].
+    apply Nat.eqb_eq in Ej. subst j'.
+    pose proof (assign_group_shape (fst p0) c (snd p0) j) as S. rewrite E in S. simpl in S.
+    destruct (nth j (dq_assign_group c (fst p0) (snd p0)) DOther) as [b' n' bid'|] eqn:E1; [|discriminate].
+    inversion S; subst b' n'.
+    destruct (IH _ j b n bid' E1 (ex_intro _ q (conj Hq Hj'))) as [p' [H1 [H2 H3]]].
+    exists p'. split; [now right | split; assumption].
+  - assert (Hn : forall q, In q r -> ~ In j (fst q)).
+    { intros q Hq Hin. assert (T : existsb (fun q => existsb (Nat.eqb j) (fst q)) r = true).
+      { apply existsb_exists. exists q. split; [exact Hq|]. apply existsb_exists. exists j. split; [exact Hin | apply Nat.eqb_refl]. }
+      congruence. }
+    destruct Hp as [<- | Hp]; [|exfalso; exact (Hn p Hp Hj)].
+    exists p0. split; [now left | split; [exact Hj|]].
+    rewrite (assign_notin r _ j Hn). eapply assign_group_in; eauto.
+Qed.
+Definition dq_covers (c : list dq_inst) (ids : list (list nat)) : Prop :=
+  forall k b n bid, nth_error c k = Some (DQ b n bid) -> exists g, In g ids /\ In k g.
+Lemma in_combine_of_in {A B} (l : list A) (l' : list B) x : length l = length l' -> In x l -> exists y, In (x, y) (combine l l').
+Proof.
+  revert l'. induction l as [|a r IH]; intros l' HL Hin; [destruct Hin|].
+  destruct l' as [|b r']; [simpl in HL; lia|]. simpl in HL. simpl.
+  destruct Hin as [-> | Hin]; [exists b; now left|].
+  destruct (IH r' (eq_add_S _ _ HL) Hin) as [y Hy]. exists y. now right.
+Qed.
+Lemma assign_leaves_none_unset c ids ms :
+  dq_covers c ids -> length ids = length ms -> dq_check c (combine ids ms) = true ->
+  existsb dq_unset (dq_assign c (combine ids ms)) = false.
+Proof.
+  intros Hcov HL Hchk. destruct (existsb _ _) eqn:X; [|reflexivity]. exfalso.
+  apply existsb_exists in X as [x [Hx Hu]]. destruct (In_nth _ _ DOther Hx) as [j [Hjl Hj]].
+  destruct x as [b n [bid|]|]; try discriminate.
+  pose proof (assign_shape (combine ids ms) c j) as S. rewrite Hj in S. simpl in S.
+  destruct (nth j c DOther) as [b0 n0 bid0|] eqn:E; [|discriminate]. inversion S; subst b0 n0.
+  pose proof (nth_DQ_nth_error _ _ _ _ _ E) as E'.
+  destruct (Hcov j b n bid0 E') as [g [Hg Hjg]].
+  destruct (in_combine_of_in ids ms g HL Hg) as [m Hm].
+  destruct (assign_in (combine ids ms) c j b n bid0 E (ex_intro _ (g, m) (conj Hm Hjg))) as [p [Hp [Hjp Hfin]]].
+  unfold dq_check in Hchk. rewrite forallb_forall in Hchk. specialize (Hchk p Hp).
+  rewrite forallb_forall in Hchk. specialize (Hchk j Hjp). unfold dq_gate_ok in Hchk. rewrite E' in Hchk.
+  destruct (snd p) as [z|]; [|discriminate]. rewrite Hj in Hfin. discriminate.
+Qed.
+(* F7 frame, full statement *)
+Lemma dq_frame i : api_decompose i <> Proceeds -> dq_covers (dq_circ i) (dq_ids i) -> dq_final i = dq_circ i.
+Proof.
+  intros Hn Hcov. revert Hn. unfold api_decompose, dq_final, dq_run, dq_stage3.
+  destruct (api_validate_qpd (dq_circ i) (dq_ids i)) as [[]| |]; simpl; auto.
+  destruct (dq_maps i) as [ms|]; simpl; auto.
+  destruct (length (dq_ids i) =? length ms) eqn:L; simpl; auto.
+  destruct (dq_check _ _) eqn:C; simpl; auto.
+  apply Nat.eqb_eq in L. rewrite (assign_leaves_none_unset _ _ _ Hcov L C). simpl. congruence.
+Qed.
+
 (* totality: without the in-range hypothesis the call still never proceeds (ValueError or IndexError) *)
 Lemma dq_groups_not_ok c ids g : In g ids -> dq_group c g <> Proceeds -> dq_groups c ids <> Proceeds.
 Proof.
